@@ -4,7 +4,8 @@
 (* Each line of the trace is                                                *)
 (*   [ev |-> "reset", case |-> n]                                          *)
 (*   [ev |-> "step", case |-> n, i |-> step number, op |-> <op record>,    *)
-(*    ret |-> STRING, same |-> 0 | step number of an identical projection, *)
+(*    ret |-> STRING, errs |-> calls of Build that returned an error,       *)
+(*    same |-> 0 | step number of an identical projection,                 *)
 (*    proj |-> projection of what the library holds after the step]        *)
 (* Build / Open log the accessor-level projection of the in-memory body,   *)
 (* Save logs the independent parse of the bytes written. The judge never   *)
@@ -33,7 +34,8 @@ TStep == /\ l <= Len(Trace) /\ Trace[l].ev = "step"
          /\ LET e == Trace[l]
                 P == Resolve(e)
                 r == JudgeStep(js, e.op, e.ret, P)
-            IN /\ wit' = AddWit(wit, r.wit, e.case)
+                api == {<<"C03i", "api-error", e.errs[k]>> : k \in DOMAIN e.errs}
+            IN /\ wit' = AddWit(wit, r.wit \cup api, e.case)
                /\ js' = r.js
                /\ ps' = Append(ps, P)
          /\ l' = l + 1
